@@ -118,7 +118,8 @@ def gen_case(seed, idx, tier="quick"):
         args["submitter_lab_name"] = None
     perturb = rng.choice([["seed", rng.randint(0, 10 ** 6)], ["draw", rng.randint(1, 50)], ["seed", 0], ["none"]])
     return {"specs": colls, "args": args, "hs_a": a, "hs_b": b, "perturb": perturb, "faults": rng.random() < cfg["fault_p"],
-            "prior_state": rng.choice([["seed", rng.randint(0, 99)], ["none"]])}
+            # the simulator owns the process-global PRNG: its state at the start of every request is part of the case
+            "prior_state": ["seed", rng.randint(0, 10 ** 6)]}
 
 
 # ---------------------------------------------------------------------------------------------------------------
